@@ -251,6 +251,15 @@ func probeStrace() bool {
 	return true
 }
 
+// lockedBuffer collects a child's output and can be read while the child still writes.
+type lockedBuffer struct {
+	mu sync.Mutex
+	b  bytes.Buffer
+}
+
+func (l *lockedBuffer) Write(p []byte) (int, error) { l.mu.Lock(); defer l.mu.Unlock(); return l.b.Write(p) }
+func (l *lockedBuffer) String() string                { l.mu.Lock(); defer l.mu.Unlock(); return l.b.String() }
+
 type idKey struct{ c, seq int }
 type idState struct {
 	begun   map[int]bool // versions with BEGIN
@@ -499,7 +508,7 @@ func runDir(r *vlib.Run, self string, di, cycles int) {
 			}
 		}
 		vc := exec.Command(self, "-mode", "verify", "-dir", store, "-cseed", strconv.FormatInt(cseed, 10), "-ids", idsFile)
-		var vout, verr bytes.Buffer
+		var vout, verr lockedBuffer
 		vc.Stdout, vc.Stderr = &vout, &verr
 		done := make(chan error, 1)
 		if err := vc.Start(); err != nil {
@@ -507,12 +516,65 @@ func runDir(r *vlib.Run, self string, di, cycles int) {
 			return
 		}
 		go func() { done <- vc.Wait() }()
+		finished := false
 		select {
 		case err = <-done:
-		case <-time.After(180 * time.Second):
-			_ = vc.Process.Kill()
-			r.InconclusiveCase("verifier watchdog fired")
+			finished = true
+		case <-time.After(30 * time.Second):
+		}
+		if !finished && !strings.Contains(vout.String(), "VERIFY-OPEN-OK") {
+			// db.Open has not returned for half a minute (it takes milliseconds): ask the process for its goroutines and see where it is
+			_ = vc.Process.Signal(syscall.SIGQUIT)
+			select {
+			case <-done:
+			case <-time.After(10 * time.Second):
+				_ = vc.Process.Kill()
+				<-done
+			}
+			dump := verr.String()
+			if strings.Contains(dump, "pkg/db.Open") {
+				i := strings.Index(dump, "pkg/db.Open")
+				st := strings.LastIndex(dump[:i], "goroutine ")
+				r.Violation("store-does-not-reopen-after-kill", map[string]interface{}{"cycle": c, "dir": di, "kill_phase": phase, "acks_before_kill": acks, "what": "db.Open has not returned after 30 s",
+					"goroutine_inside_open": tail(dump[st:minInt(len(dump), st+1800)], 1800)})
+			} else {
+				r.InconclusiveCase("verifier did not open the store within 30 s and no goroutine was found inside db.Open")
+			}
 			return
+		}
+		if !finished {
+			select {
+			case err = <-done:
+			case <-time.After(30 * time.Second):
+				// a minute for a few thousand lookups: where is it?
+				_ = vc.Process.Signal(syscall.SIGQUIT)
+				select {
+				case <-done:
+				case <-time.After(10 * time.Second):
+					_ = vc.Process.Kill()
+					<-done
+				}
+				dump := verr.String()
+				where := func(sym string) string {
+					i := strings.Index(dump, sym)
+					st := strings.LastIndex(dump[:i], "goroutine ")
+					return tail(dump[st:minInt(len(dump), st+1800)], 1800)
+				}
+				switch {
+				case strings.Contains(dump, "pkg/db.Open"):
+					r.Violation("store-does-not-reopen-after-kill", map[string]interface{}{"cycle": c, "dir": di, "kill_phase": phase, "what": "db.Open has not returned after 60 s", "goroutine_inside_open": where("pkg/db.Open")})
+					return
+				case strings.Contains(dump, "pkg/db.(*Database).GetSignedVAABytes"):
+					r.Violation("acknowledged-write-unreadable", map[string]interface{}{"cycle": c, "dir": di, "kill_phase": phase, "what": "a lookup after the reopen has not returned after 60 s", "goroutine_inside_lookup": where("pkg/db.(*Database).GetSignedVAABytes")})
+					return
+				default:
+					// e.g. stuck while closing the store: says nothing about what was acknowledged; the process is gone now (one more
+					// kill point), carry on with the next cycle
+					r.InconclusiveCase("verifier did not finish within 60 s outside Open / lookup (killed; next cycle continues)")
+					r.Count("verifier_stuck_outside_open_and_lookup", 1)
+					continue
+				}
+			}
 		}
 		vs := vout.String()
 		if os.Getenv("C16_DEBUG") != "" {
@@ -597,4 +659,11 @@ func tail(s string, n int) string {
 		return s[len(s)-n:]
 	}
 	return s
+}
+
+func minInt(a, b int) int {
+	if a < b {
+		return a
+	}
+	return b
 }
